@@ -153,6 +153,17 @@ impl Stream for LazyParser {
     }
 }
 
+/// `Parser` for the `Cucumber` facade yielding the case's items.
+pub struct FacadeParser(pub LazyParser);
+
+impl cucumber::Parser<()> for FacadeParser {
+    type Cli = cucumber::cli::Empty;
+    type Output = LazyParser;
+    fn parse(self, (): (), _: cucumber::cli::Empty) -> LazyParser {
+        self.0
+    }
+}
+
 pub fn parse_error(n: u32) -> parser::Error {
     parser::Error::Parsing(Arc::new(gherkin::ParseFileError::Reading {
         path: format!("/virt/broken{n}.feature").into(),
@@ -324,6 +335,31 @@ pub struct RunOutput {
     pub wall: Duration,
     pub parked: u32,
     pub busy_idle_polls: u64,
+}
+
+impl RunOutput {
+    /// A finished run known only by its items (events recorded by a writer).
+    pub fn from_items(items: Vec<Item>) -> RunOutput {
+        let evs = items.iter().enumerate().map(|(i, it)| evrec::fingerprint(it, i, 0, 0, 0)).collect();
+        RunOutput {
+            items,
+            evs,
+            cbs: Vec::new(),
+            pulls: Vec::new(),
+            qpoints: Vec::new(),
+            polls: 0,
+            max_self_wake_streak: 0,
+            end: End::Ended,
+            polls_after_last_progress: 0,
+            sentinel_hits_during: 0,
+            hook_restored: true,
+            items_after_end: 0,
+            sched_hash: 0,
+            wall: Duration::ZERO,
+            parked: 0,
+            busy_idle_polls: 0,
+        }
+    }
 }
 
 pub const LIVELOCK_POLLS: u64 = 20_000;
